@@ -1017,6 +1017,34 @@ def r73(ctx, repo):
            if keys <= params else f"as_dict keys {sorted(keys - params)} are "
            f"not parameters of store_basin", node=dd[0],
            label="as_dict keys", nontrivial=False)
+    # the previous output is removed under the name that is written to: the
+    # writer appends, so a stale file keeps its basinmap features and basin
+    # definitions
+    wcalls = [c for c in walk(ex) if isinstance(c, ast.Call) and (
+        call_name(c) or "").split(".")[-1] == "RTDCWriter" and c.args
+        and isinstance(c.args[0], ast.Name)]
+    if len(wcalls) != 1:
+        raise AnalysisError("Export.hdf5: writer call lost")
+    P = wcalls[0].args[0].id
+    order = {id(n): i for i, n in enumerate(walk(ex))}
+    rebinds = [n for n in walk(ex) if isinstance(n, ast.Assign) and any(
+        is_name(t, P) for t in n.targets)]
+    removes = [c for c in walk(ex) if isinstance(c, ast.Call) and isinstance(
+        c.func, ast.Attribute) and c.func.attr == "unlink" and is_name(
+        c.func.value, P)]
+    if not removes:
+        raise AnalysisError("Export.hdf5: removal of the previous output "
+                            "lost")
+    late = [n for n in rebinds if any(order[id(n)] > order[id(c)]
+                                      for c in removes)]
+    ctx.ob("R7.3", not late,
+           f"the previous output is removed under the final name of `{P}`"
+           if not late else
+           f"`{short(late[0], 50)}` changes the output name after the "
+           f"previous output was removed: a second export to the same "
+           f"target appends to the first one (stale basinmap features, "
+           f"basin definitions of both exports)", node=(late or removes)[0],
+           label="stale output removed under the final name")
     r73_writer(ctx, repo)
 
 
@@ -1762,7 +1790,7 @@ def run(ctx):
     ctx.rule("R7.2", "every proxy route indexes the origin through the map; "
              "mapped basins wrapped; map read from the referrer", minimum=22)
     ctx.rule("R7.3", "map composition on export (filter, hierarchy child, "
-             "upstream basins), mapping name = stored feature", minimum=22)
+             "upstream basins), mapping name = stored feature", minimum=23)
     ctx.rule("R7.4", "named objects are created once (name varies with "
              "every enclosing loop or creation is guarded)", minimum=7)
     ctx.rule("R7.5", "relocation: relative lookup, bare file name stored, "
@@ -1896,6 +1924,15 @@ MUTANTS = [
      ('                if basin_map_name not in self.h5file["events"]:\n',
       '                if (basin_map_name not in self.h5file["events"]\n'
       '                        or self.mode == "replace"):\n'), "R7.3"),
+    ("previous output removed before the suffix is appended "
+     "(seeded C07_15)", EXPORT,
+     [("        elif path.exists():\n            path.unlink()\n", ""),
+      ("        path = pathlib.Path(path)\n        # Make sure that path "
+       "ends with .rtdc\n",
+       "        path = pathlib.Path(path)\n"
+       "        if override and path.exists():\n"
+       "            path.unlink()\n"
+       "        # Make sure that path ends with .rtdc\n")], "R7.3"),
     ("new map feature never stored", WRITER,
      ("                        basin_map_name = bm_cand\n"
       "                        self.store_feature(feat=basin_map_name, "
@@ -2170,6 +2207,34 @@ def _twin_guard_clauses(src):
         "        return out_arr\n\n") + src[b:]
 
 
+def _twin_local_aliases(src):
+    """self.feat_obj / self.basinmap through local aliases in __getitem__
+    (bound inside the branch that uses them), named slice-all condition"""
+    old = ("            if isinstance(index, slice) and index == slice(None):\n"
+           "                indices = self.basinmap\n"
+           "            else:\n"
+           "                indices = self.basinmap[index]\n"
+           "            out_arr = np.empty((len(indices),) + "
+           "self.feat_obj.shape[1:],\n"
+           "                               dtype=self.feat_obj.dtype)\n"
+           "            for ii, idx in enumerate(indices):\n"
+           "                out_arr[ii] = self.feat_obj[idx]\n")
+    if src.count(old) != 1:
+        return src
+    return src.replace(
+        old,
+        "            feat_obj = self.feat_obj\n"
+        "            basinmap = self.basinmap\n"
+        "            take_all = isinstance(index, slice) and "
+        "index == slice(None)\n"
+        "            indices = basinmap if take_all else basinmap[index]\n"
+        "            out_arr = np.empty((len(indices),) + "
+        "feat_obj.shape[1:],\n"
+        "                               dtype=feat_obj.dtype)\n"
+        "            for ii, idx in enumerate(indices):\n"
+        "                out_arr[ii] = feat_obj[idx]\n")
+
+
 def _twin_fetch_events(src):
     """both gather loops moved into one helper with positional-only
     parameters and *args / **kwargs"""
@@ -2350,6 +2415,7 @@ TWINS = [
      _twin_init_kwargs_helper),
     ("proxy __getitem__ as guard clauses with a conditional expression", FB,
      _twin_guard_clauses),
+    ("origin and map through local aliases", FB, _twin_local_aliases),
     ("gather loops in a helper with positional-only parameters", FB,
      _twin_fetch_events),
     ("load_dataset with early return", FB,
